@@ -200,7 +200,12 @@ impl<'a> DocSymEmitter<'a> {
                         .unwrap()
                         .evaluate_expression_as_string(id, false)
                     {
-                        self.emit_document_symbols(&b.inner, Some(&Identifier::new(symbol_id)))
+                        // A segment name with a period is reported by the assembler and has no symbols to show
+                        if symbol_id.contains('.') {
+                            vec![]
+                        } else {
+                            self.emit_document_symbols(&b.inner, Some(&Identifier::new(symbol_id)))
+                        }
                     } else {
                         vec![]
                     }
